@@ -73,6 +73,18 @@ impl EmmyLuaEmitter {
         let _ = writeln!(self.output, "---@field {} {}", formatted_name, ty);
     }
 
+    /// Write an index signature `---@field [key_type] value_type`, with the description on a
+    /// separate line above.
+    pub fn write_index_field(&mut self, key_ty: &str, value_ty: &str, description: Option<&str>) {
+        if let Some(desc) = description {
+            for line in desc.lines() {
+                let _ = writeln!(self.output, "--- {}", line);
+            }
+        }
+
+        let _ = writeln!(self.output, "---@field [{}] {}", key_ty, value_ty);
+    }
+
     /// Write `---@alias AliasName`.
     pub fn write_alias_header(&mut self, name: &str) {
         let _ = writeln!(
